@@ -75,6 +75,12 @@ def cases(tier, rng, ctl=True):
     for cond in ["X", "[X]", "¥[X]¥¬", "x0", ":[X]", "n[X]0"]:
         for wrap in ["{%s|1£}", "2({%s|1£})", "λ{%s|1£};†", "3({%s|}1)", "1{:|{%s|0}_‹}"]:
             out.append((wrap % cond, "", rng.choice(machine.INPUT_SETS)))
+    # every program over the third alphabet of MC_Machine (lazily produced lists: a map lambda that prints, the ways of
+    # printing, copying, moving and wrapping the reference)
+    for k in range(1, (4 if tier == "quick" else 5) + 1):
+        for t in itertools.product("2ƛ,…;:$w", repeat=k):
+            if "ƛ" in t:
+                out.append(("".join(t), "", machine.INPUT_SETS[1]))
     out += families(tier, rng)
     return list(dict.fromkeys((c[0], c[1], tuple(map(repr, c[2]))) for c in out)), out
 
@@ -182,8 +188,13 @@ def run(pid, tier, t0, which, seed_extra, ctl=True):
                               workers=16, xss="512m", xmx="16g", timeout=3000)
         if not mcb["ok"]:
             V.add("spec:MC_Machine(B):" + str(mcb["violated"]), {"trace": tlc.counterexample(mcb["out"])})
-        mc["distinct"] += mcb["distinct"]
-        mc["generated"] += mcb["generated"]
+        # third alphabet: lazily produced lists (cells, copies, the ways of printing and wrapping them)
+        mcz = tlc.model_check(s, "MC_Machine", cfg="MC_Machine_Z" if tier == "quick" else "MC_Machine_Z6",
+                              workers=16, xss="512m", xmx="16g", timeout=3000)
+        if not mcz["ok"]:
+            V.add("spec:MC_Machine(Z):" + str(mcz["violated"]), {"trace": tlc.counterexample(mcz["out"])})
+        mc["distinct"] += mcb["distinct"] + mcz["distinct"]
+        mc["generated"] += mcb["generated"] + mcz["generated"]
         _, cs = cases(tier, rng, ctl)
         seen = set()
         uniq = []
@@ -233,7 +244,8 @@ def run(pid, tier, t0, which, seed_extra, ctl=True):
             "verdicts": tally,
             "undefined_reasons": dict(sorted(reasons.items(), key=lambda kv: -kv[1])[:40]),
             "mc": {"module": "MC_Machine", "distinct": mc["distinct"], "depth": mc["depth"],
-                   "invariants": ["StatusOK", "BalancedAtEnd", "TopLevelBalanced", "ScopesMatch", "FrameRule"]},
+                   "invariants": ["StatusOK", "BalancedAtEnd", "TopLevelBalanced", "ScopesMatch", "HeapOK", "FrameRule", "ProducedOnce"],
+                   "alphabets": ["A", "B", "Z"]},
             "trace_tlc": {k: st[k] for k in st if k != "extra"}, "exhaustive": False,
         },
         ["VyMachine is partial on purpose: runs that leave the written rules are counted as skip:undefined, not evaluated",
